@@ -271,6 +271,9 @@ func (f *fn) bindCall(x *ast.CallExpr, lhs []ast.Expr, define bool, k func([]cal
 		cont2 := func() (string, error) { return k(rs) }
 		var body string
 		if recvExpr != nil {
+			if err := f.checkWriteThrough(recvExpr); err != nil {
+				return "", err
+			}
 			body, err = f.assignLval(recvExpr, recvTmp, cont2)
 		} else {
 			body, err = cont2()
@@ -320,25 +323,36 @@ func (f *fn) bindCall(x *ast.CallExpr, lhs []ast.Expr, define bool, k func([]cal
 			}
 			rs = append(rs, cr)
 		}
-		var recvExpr ast.Expr
-		recvTmp := ""
+		// values written back by the callee: the receiver, then the parameters it writes through
+		var backExpr []ast.Expr
+		var backTmp []string
 		if inf.mutRecv {
-			recvExpr = ast.Unparen(x.Fun).(*ast.SelectorExpr).X
-			recvTmp = f.temp()
-			pat = append(pat, recvTmp)
+			backExpr = append(backExpr, ast.Unparen(x.Fun).(*ast.SelectorExpr).X)
+		}
+		for _, i := range inf.mutPar {
+			backExpr = append(backExpr, x.Args[i])
+		}
+		for range backExpr {
+			t := f.temp()
+			backTmp = append(backTmp, t)
+			pat = append(pat, t)
 		}
 		if inf.world {
 			args = append(args, "w")
 			pat = append(pat, "w")
 			f.touchWorld()
 		}
-		cont2 := func() (string, error) { return k(rs) }
-		var body string
-		if recvExpr != nil {
-			body, err = f.assignLval(recvExpr, recvTmp, cont2)
-		} else {
-			body, err = cont2()
+		var store func(i int) (string, error)
+		store = func(i int) (string, error) {
+			if i == len(backExpr) {
+				return k(rs)
+			}
+			if err := f.checkWriteThrough(backExpr[i]); err != nil {
+				return "", err
+			}
+			return f.assignLval(backExpr[i], backTmp[i], func() (string, error) { return store(i + 1) })
 		}
+		body, err := store(0)
 		if err != nil {
 			return "", err
 		}
